@@ -19,6 +19,7 @@ k=0; while [ $k -lt $N ]; do
       git -C $PAR/repo$k apply $d/patch.diff || { echo "$id: patch does not apply"; continue; }
       out=$(RULER_REPO=$PAR/repo$k $PAR/verif$k/check $prop 2>&1); rc=$?
       git -C $PAR/repo$k checkout -- . ; git -C $PAR/repo$k clean -fdq -e target
+      [ $rc -eq 1 ] || { mkdir -p ${PAR}_logs; echo "$out" > ${PAR}_logs/$id.txt; }     # keep the full output of anything but a detection
       v=$(echo "$out" | grep -c "^VIOLATION"); first=$(echo "$out" | grep -E "^(VIOLATION|UNDECIDED)" | head -1 | cut -c1-170)
       echo "$id prop=$prop exit=$rc violations=$v :: $first"
     done > $PAR/out$k.log 2>&1 ) &
